@@ -23,6 +23,15 @@ Driver for C09 / C10-B.  Grammar: see harness/src/bin/c09.rs.
   Every query of a history is judged by the same oracle clauses against the knowledge base, configuration and facts AS THEY
   ARE at that query; the completeness clauses (iv), (iv-b) only when the index is fresh (no edit since the last
   `new` / `with_config` / `rebuild_index`: "call after modifying knowledge base"). A failure carries `@<k>` = the k-th query.
+
+  Caller-owned undo frame (C10 part B): cfg ending in `^r` / `^k` = the single query runs inside a frame the caller began on the
+  facts and rolls back (`^r`) / commits (`^k`) afterwards; obs := `<provable> <facts after the query> <undo depth, caller frame open>
+  <#solutions> <facts after the caller closed its frame> <undo depth then>`. Oracle (`oracleWrap`, evaluated before the other clauses):
+  caller-frame-depth (depth is 1 after the query: the search neither closed the caller's frame nor left one of its own), caller-frame-
+  depth-after-close (0), caller-rollback-not-restored (`^r`: the facts are the initial facts WHATEVER the verdict - the search's frames
+  are nested frames of the caller's; model: C10.query_inside_frame_rolls_back), caller-commit-changed-facts (`^k`: the facts are those
+  the query handed back); then the clauses of a plain query on `<provable> <facts after the query> 0 <#solutions>`.
+  Model prediction: every admissible plain observation with depth 1 + the facts after the close computed the same way.
 -/
 open Proto C09
 
@@ -197,6 +206,8 @@ structure Case where
   steps : Option (List Step) := none
   /-- completeness clauses apply (history: the index is fresh) -/
   fresh : Bool := true
+  /-- caller-owned undo frame around the (single) query: 0 none, 1 rolled back afterwards (`^r`), 2 committed (`^k`) -/
+  wrap : Nat := 0
 
 /-- `*<rule>` = the rule is added disabled -/
 def parseKRule (s : String) : Option KRule :=
@@ -255,6 +266,11 @@ def parseStep (facts : Facts) (q : String) (s : String) : Option Step :=
 def parseCase (line : String) : Option Case :=
   match tokens line with
   | cfg :: f :: q :: r :: rest => do
+    let (cfg, wrap) ← match cfg.splitOn "^" with
+      | [c] => some (c, 0)
+      | [c, w] => if w = "r" then some (c, 1) else if w = "k" then some (c, 2) else none
+      | _ => none
+    if wrap != 0 && !rest.isEmpty then none
     let c ← parseCfg cfg
     let ks ← if r = "-" then some [] else (r.splitOn ";").mapM parseKRule
     let (g, neg) ← parseQuery q
@@ -264,7 +280,7 @@ def parseCase (line : String) : Option Case :=
       | [h] => if h = "-" then some (some []) else ((h.splitOn "@").mapM (parseStep facts q)).map some
       | _ => none
     pure { strategy := c.strategy, maxDepth := c.maxDepth, maxSol := c.maxSol, facts := facts, goal := g, kb := enabledRules ks,
-           neg := neg, krules := ks, voc := c.voc, memo := c.memo, viaNew := c.viaNew, steps := steps }
+           neg := neg, krules := ks, voc := c.voc, memo := c.memo, viaNew := c.viaNew, steps := steps, wrap := wrap }
   | _ => none
 
 /-! ### candidate lists: computed by the model (`RreModel/C09/Candidates.lean`; `C09.topCandidates_covers`,
@@ -371,9 +387,14 @@ def modelHistory (nm : Naming) (c : Case) (steps : List Step) : String :=
     | _ => (hEdit nm h st, outs)
   if r.2.isEmpty then "-" else " / ".intercalate r.2
 
-def modelLine (line : String) : String :=
-  match parseCase line with
-  | some c =>
+/-- a plain prediction `p fa 0 ns` seen from inside / after a caller-owned frame: depth 1 while it is open; after the caller's
+rollback the initial facts, after its commit the facts the query handed back (C10.query_inside_frame_rolls_back, C10.commit_keeps_data) -/
+def wrapAlt (c : Case) (alt : String) : String :=
+  match tokens alt with
+  | [p, fa, d, ns] => s!"{p} {fa} {(d.toNat?.getD 0) + 1} {ns} {if c.wrap = 1 then showFacts (factsOfData (dataOf c.facts)) else fa} 0"
+  | _ => alt
+
+def modelLinePlain (c : Case) : String :=
     if let some steps := c.steps then modelHistory (tieNamesV c.voc) c steps
     else if c.voc != 0 then modelHistory (tieNamesV c.voc) c [.query c.facts c.goal c.neg false ""]
     else if !c.neg && c.krules.all (·.enabled) then
@@ -398,6 +419,14 @@ def modelLine (line : String) : String :=
           showOut (if c.neg then queryNegFast c.kb c.strategy c.maxDepth c.maxSol sub c.goal order (storeOf c.facts)
                    else queryFast c.kb c.strategy c.maxDepth c.maxSol sub c.goal order (storeOf c.facts))
         " || ".intercalate outs.eraseDups
+
+def modelLine (line : String) : String :=
+  match parseCase line with
+  | some c =>
+    if c.wrap = 0 then modelLinePlain c
+    else
+      let m := modelLinePlain c
+      if m = "many-orders" then m else " || ".intercalate ((m.splitOn " || ").map (wrapAlt c))
   | none => "bad-case"
 
 /-! ### oracle -/
@@ -506,6 +535,24 @@ def oracleHistory (iiiFirst : Bool) (c : Case) (steps : List Step) (obs : String
     | some b => b
     | none => joinSp ("ok" :: "history" :: r.2.2.1)
 
+/-- the single query of `c` ran inside a caller-owned undo frame (`c.wrap` 1: rolled back afterwards, 2: committed) -/
+def oracleWrap (iiiFirst : Bool) (c : Case) (o : String) : String :=
+  if o.trimAscii.toString.startsWith "panic" then "fail query-panic" else
+  match tokens o with
+  | [p, fa, d, ns, fa2, d2] =>
+    match parseFacts fa, d.toNat?, parseFacts fa2, d2.toNat? with
+    | some after, some depth, some fin, some depth2 =>
+      let verdict := if p = "1" then "provable" else "notprovable"
+      if depth != 1 then s!"fail caller-frame-depth {verdict}"
+      else if depth2 != 0 then "fail caller-frame-depth-after-close"
+      else if c.wrap = 1 && fin != c.facts then s!"fail caller-rollback-not-restored {verdict}"
+      else if c.wrap = 2 && fin != after then s!"fail caller-commit-changed-facts {verdict}"
+      else
+        let r := oracleCore iiiFirst c false s!"{p} {fa} 0 {ns}"
+        if r.startsWith "ok" then joinSp [r, "caller_frame", if c.wrap = 1 then "caller_rollback" else "caller_commit"] else r
+    | _, _, _, _ => "bad-input"
+  | _ => "bad-input"
+
 def oracleLine (iiiFirst : Bool) (line : String) : String :=
   match line.splitOn " | " with
   | [cs, o] =>
@@ -513,7 +560,7 @@ def oracleLine (iiiFirst : Bool) (line : String) : String :=
     | some c =>
       match c.steps with
       | some steps => oracleHistory iiiFirst c steps o
-      | none => oracleCore iiiFirst c false o
+      | none => if c.wrap = 0 then oracleCore iiiFirst c false o else oracleWrap iiiFirst c o
     | none => "bad-input"
   | _ => "bad-input"
 
